@@ -29,12 +29,43 @@ def f9_still_fails(impl):
     return len(reqs) >= 1 and reqs[0].startswith('req 301')
 
 
-# id -> (property, engine, witness path, predicate)
-DETECTORS = {
-    'F21': ('C11', 'control', 'corpus/control/F21-restore-fails-wildcard-subpath.ops', f21_still_fails),
-    'F9': ('C16', 'control', 'corpus/control/F9-multihost-subpath-tls.ops', f9_still_fails),
-}
+def _evs(impl, name):
+    return ' '.join(_case(impl, name))
+
+
+def f2a(impl): return 'done r2 status=503' in _evs(impl, 'F2a')
+def f2b(impl):
+    c = _case(impl, 'F2b')
+    txt = ' '.join(c)
+    return 'cmd c2 res=ok' in txt and txt.find('got a-t1-a:80 r1') > txt.find('cmd c2 res=ok') >= 0
+def f2c(impl): return 'done r1 status=200 by=a-t1-a:80' in _evs(impl, 'F2c')
+def f2d(impl): return 'done r2 status=503' in _evs(impl, 'F2d')
+def f12(impl):
+    c = _case(impl, 'F12')
+    for l in c:
+        if 'cmd c3 res=ok' in l:
+            return l.startswith('t=200000000 ') and 'done r1' not in ' '.join(c[:c.index(l) + 1])
+    return False
+def f16(impl):
+    c = _case(impl, 'F16')
+    return len(c) >= 2 and 'probe b-t2-a:80' in c[-1] and 'cmd c3 res=ok' in ' '.join(c)
+def f19(impl): return 'done r2 status=200 by=a-t1-a:80' in _evs(impl, 'F19')
+
+
+# (finding id, property, engine, witness path, predicate)
+DETECTORS = [
+    ('F21', 'C11', 'control', 'corpus/control/F21-restore-fails-wildcard-subpath.ops', f21_still_fails),
+    ('F9', 'C16', 'control', 'corpus/control/F9-multihost-subpath-tls.ops', f9_still_fails),
+    ('F2a', 'C02', 'proxy', 'corpus/proxy/F2-stale-claim-refused.ops', f2a),
+    ('F2b', 'C03', 'proxy', 'corpus/proxy/F2-served-after-return.ops', f2b),
+    ('F2c', 'C07', 'proxy', 'corpus/proxy/F2-held-uses-replaced.ops', f2c),
+    ('F2d', 'C07', 'proxy', 'corpus/proxy/F2-refused-by-pause.ops', f2d),
+    ('F12', 'C03', 'proxy', 'corpus/proxy/F12-overlapping-drain.ops', f12),
+    ('F16', 'C03', 'proxy', 'corpus/proxy/F16-orphaned-lb.ops', f16),
+    ('F16', 'C17', 'proxy', 'corpus/proxy/F16-orphaned-lb.ops', f16),
+    ('F19', 'C09', 'proxy', 'corpus/proxy/F19-restore-readmits.ops', f19),
+]
 
 
 def listed():
-    return {e['id']: e for e in json.load(open(os.path.join(ROOT, 'known_findings.json')))}
+    return {(e['id'], e['property']): e for e in json.load(open(os.path.join(ROOT, 'known_findings.json')))}
